@@ -73,11 +73,17 @@ ArchReadRule(off, len) ==
        ELSE IF id \in fetched THEN "FETCH: chunk read from the archive twice"
        ELSE IF id \notin NeededIds THEN "FETCH: chunk that the source does not need was read"
        ELSE "ok"
+FlagSoft(rule) ==
+  /\ verdicts' = IF nverdicts < MaxVerdicts THEN Append(verdicts, [scenario |-> sc.n, line |-> l, rule |-> rule, restart |-> "fault" \in DOMAIN sc]) ELSE verdicts
+  /\ nverdicts' = nverdicts + 1
+  /\ UNCHANGED skipping
 IoEv ==
   /\ \E e \in {"read", "write"} : Step(e)
   /\ IF Ev.role = "output" /\ Ev.ev = "write" THEN
         LET r == WriteRule(Ev.off, Ev.len) IN
-        IF r = "ok" THEN written' = written \cup {Ev.off} /\ NoFlag /\ UNCHANGED fetched ELSE Flag(r) /\ UNCHANGED <<written, fetched>>
+        \* a write that breaks the discipline is recorded; the scenario goes on so that its consequences are judged too
+        /\ written' = written \cup {Ev.off} /\ UNCHANGED fetched
+        /\ (IF r = "ok" THEN NoFlag ELSE FlagSoft(r))
      ELSE IF Ev.role = "archive" /\ Ev.ev = "read" THEN
         LET r == ArchReadRule(Ev.off, Ev.len) IN
         IF r # "ok" THEN Flag(r) /\ UNCHANGED <<written, fetched>>
